@@ -471,9 +471,10 @@ RetEv(op) ==
   LET failed == {i \in 1..N : cl.se[i].haserr} IN
   [ev |-> "ret", op |-> op, err |-> (cl.top # "" \/ failed # {}), elapsed |-> "within", top |-> cl.top,
    nerrs |-> IF cl.top # "" THEN 1 ELSE Cardinality(failed),
+   entries |-> IF cl.top # "" THEN <<0>> ELSE SetToSeq(failed),       \* the joined error: one entry per failed message, naming it
    msgs |-> [i \in 1..N |-> [delivered |-> cl.dl[i], haserr |-> cl.se[i].haserr, reason |-> cl.se[i].reason,
-                             code |-> cl.se[i].code, temp |-> cl.se[i].temp, esc |-> cl.se[i].esc,
-                             rcpts |-> cl.se[i].rcpts]]]
+                             code |-> cl.se[i].code, temp |-> cl.se[i].temp, temp2 |-> cl.se[i].temp, esc |-> cl.se[i].esc,
+                             rcpts |-> cl.se[i].rcpts, ownmsg |-> TRUE]]]
 
 DialRet ==     \* failed dial
   /\ cl.pc = "dialRet"
